@@ -641,7 +641,7 @@ class MemProg(Module):
             self.clock_domains.cd_b = ClockDomain("b")
             self.cds.append(self.cd_b)
         width, depth = v.get("width", 8), v["depth"]
-        init = {"none": None, "short": [0x12, 0x34][:max(1, depth // 2)], "full": [(0x11 * (i + 1)) & (2**width - 1) for i in range(depth)]}[v["init"]]
+        init = {"none": None, "short": [0x12, 0x34][:max(1, depth // 2)], "full": [(0x111111 * (i + 1)) & (2**width - 1) for i in range(depth)]}[v["init"]]
         if init is not None:
             init = [x & (2**width - 1) for x in init]
         self.mem = mem = Memory(width, depth, init=init, name="mem")
@@ -649,7 +649,7 @@ class MemProg(Module):
         self.inputs = []
         self.menus = []
         self.obs = []
-        dvals = [0xA5 & (2**width - 1), 0x3C & (2**width - 1)]
+        dvals = [0xA5A5A5 & (2**width - 1), 0x3C3C3C & (2**width - 1)]        # every bit of wide words takes both values
         amenu = list(range(depth))
 
         def inp(name, w, menu):
@@ -714,6 +714,10 @@ def mem_variants(tier):
     V["rw.rf.initfull"] = dict(ports="rw", mode="rf", gran=0, re=False, init="full", depth=4)
     V["rw.wf.w6"] = dict(ports="rw", mode="wf", gran=0, re=False, init="full", depth=4, width=6)
     V["rw.wf.w12g4"] = dict(ports="rw", mode="wf", gran=4, re=False, init="full", depth=2, width=12)
+    # byte-enable granularity that does not divide the width: one lane plus a remainder, two lanes plus a remainder
+    V["rw.wf.w12g8"] = dict(ports="rw", mode="wf", gran=8, re=False, init="full", depth=2, width=12)
+    V["rw.rf.w7g4"] = dict(ports="rw", mode="rf", gran=4, re=False, init="full", depth=2, width=7)
+    V["rw.wf.w10g4"] = dict(ports="rw", mode="wf", gran=4, re=False, init="full", depth=2, width=10)
     V["rw.nc.d3"] = dict(ports="rw", mode="nc", gran=0, re=False, init="full", depth=3)
     V["dual.wnc.rf"] = dict(ports="dual", mode="rf", wmode="nc", gran=0, re=False, init="short", depth=4)
     return V
